@@ -617,7 +617,6 @@ func goAdnlPingRace(a []string) string {
 					return
 				}
 				sent[g] = int64(j + 1)
-				time.Sleep(200 * time.Microsecond)
 			}
 		}(g)
 	}
@@ -638,6 +637,7 @@ func goAdnlPingRace(a []string) string {
 				case <-finished: // senders are done and the stream ran dry
 				default:
 					r.err = err
+					sc.close() // the senders must not block on a peer that stopped reading
 				}
 				res <- r
 				return
@@ -648,12 +648,14 @@ func goAdnlPingRace(a []string) string {
 			}
 			if len(p) != 16 {
 				r.err = fmt.Errorf("unexpected payload of %d bytes", len(p))
+				sc.close()
 				res <- r
 				return
 			}
 			g, j := int(binary.LittleEndian.Uint32(p)), int(binary.LittleEndian.Uint32(p[4:]))
 			if g >= 16 || j != next[g] {
 				r.err = fmt.Errorf("goroutine %d: packet %d arrived, %d expected", g, j, next[g])
+				sc.close()
 				res <- r
 				return
 			}
@@ -664,11 +666,11 @@ func goAdnlPingRace(a []string) string {
 	wg.Wait()
 	close(finished)
 	r := <-res
-	if sendErr != nil {
-		return "FAIL client-send-error " + sendErr.Error()
-	}
 	if r.err != nil {
 		return fmt.Sprintf("FAIL keepalive-races-with-send after %d data frames and %d pings: %v", r.data, r.pings, r.err)
+	}
+	if sendErr != nil {
+		return "FAIL client-send-error " + sendErr.Error()
 	}
 	total := 0
 	for _, n := range sent {
@@ -792,7 +794,7 @@ func genC11Extra(g *h.G) {
 		g.Emit("go.adnl.dialdeadline", h.Hex(g.Bytes(32)), fmt.Sprint(g.Rng.Int31()), "300")
 	}
 	if g.Thorough() {
-		g.Emit("go.adnl.pingrace", h.Hex(g.Bytes(32)), fmt.Sprint(g.Rng.Int31()), "6", "8")
+		g.Emit("go.adnl.pingrace", h.Hex(g.Bytes(32)), fmt.Sprint(g.Rng.Int31()), "8", "28")
 	}
 	for i := 0; i < g.Scale(150, 2000); i++ {
 		g.Emit("adnl.keyid", h.Hex(g.Bytes(32)))
